@@ -3,11 +3,46 @@ import os, sys
 sys.path.insert(0, os.path.dirname(os.path.abspath(__file__)))
 import vflib, _mempool
 
-META = dict(engine="E1", level="model_checking", text="wip", note="wip", technique="wip")
+META = dict(
+    engine="E1",
+    level="model_checking",
+    text="Mempool.Submit with conflicts follows MemPoolAccept::ReplacementChecks: evicted = direct conflicts + all descendants; Rule 5 (<= 100 "
+         "conflicting clusters), Rule 3 (modified fee >= total modified fees of the evicted), Rule 4 (the difference >= incremental relay feerate x own "
+         "vsize with CFeeRate::GetFee's round-up), strictly better feerate diagram (brute-force optimal linearisation per cluster, exact integer "
+         "comparison), no ancestor among the conflicts. TLC proves on the bounded model that every accepted replacement satisfies those conditions "
+         "(stated independently of the verdict's control flow) and evicts exactly that set. The universe places fees at -1 / 0 / +1 satoshi of the "
+         "Rule 3 / Rule 4 / min-relay thresholds (real measured sizes), has a larger-but-lower-feerate replacement, a two-cluster replacement, a "
+         "replacement with an unrelated in-pool parent, one that spends what it evicts, prioritisation that moves the thresholds, and - with "
+         "-incrementalrelayfee=0 - an equal-fee equal-size replacement that only the strictness of the diagram comparison rejects. Every transition "
+         "is replayed through ProcessTransaction on a real node: verdict, replaced list, resulting pool and modified fees are compared.",
+    note="SAFE mode: a node that rejects a replacement the model accepts is more conservative, not a violation; an accepted replacement is checked by "
+         "TLC against the necessary conditions in the state it was submitted to. Rule 5's bound of 100 clusters is a constant of the model that the "
+         "bounded universes do not reach. TRUC sibling eviction and package RBF are outside this check.",
+    technique="TLA+ spec Mempool + TLC exhaustive; path cover replayed on a real node; replacement conditions evaluated by TLC on observed transitions",
+)
 
 
 def run(ctx):
     binary = ctx.build_adapter("mempool")
-    st = _mempool.run_scenario(ctx, binary, "C26", "rbf", "MC_rbf_q.cfg")
-    ctx.log("m4 margins", sorted(st["m4"])[:40], "m3", sorted(st["m3"])[:40], "nc", st["nclusters"], "replaced", dict(st["replaced"]))
-    return ctx.finish(level="model_checking", exhaustive=True, rule="wip")
+    nontrivial = lambda p: any(s.get("rbf") and s["a"][0] == "submit" for s in p["steps"])
+    if ctx.tier == "quick":
+        st = _mempool.run_scenario(ctx, binary, "C26", "rbf", "MC_rbf_c26q.cfg", "MU_std.cfg", nontrivial=nontrivial)
+    else:
+        st = _mempool.run_scenario(ctx, binary, "C26", "rbf", "MC_rbf_t.cfg", "MU_std.cfg", nontrivial=nontrivial)
+        _mempool.run_scenario(ctx, binary, "C26", "chain", "MC_chain_t.cfg", "MU_std.cfg", nontrivial=nontrivial)
+    st0 = _mempool.run_scenario(ctx, binary, "C26", "rbf", "MC_rbf0_q.cfg", "MU_incr0.cfg", nontrivial=nontrivial)
+    _mempool.need(st, [("submit", "ok"), ("submit", "insufficient fee"), ("submit", "replacement-failed"), ("submit", "bad-txns-spends-conflicting-tx"),
+                       ("submit", "min relay fee not met"), ("prio", "none")], "C26")
+    _mempool.need(st0, [("submit", "replacement-failed"), ("submit", "insufficient fee"), ("submit", "ok")], "C26 incr0")
+    miss = [m for m in (-1, 0, 1) if m not in st["m4"]] + [("m3", m) for m in (-1, 0) if m not in st0["m3"]]
+    if miss or not {1, 2} <= st["nclusters"] or not (st["replaced"].get(2) and st["replaced"].get(1)):
+        raise vflib.InfraError("vacuity: the universe no longer sits on the replacement thresholds (missing margins %s, clusters %s, evicted-set sizes %s); "
+                               "re-place the fees in Uni_rbf.tla for the measured sizes" % (miss, sorted(st["nclusters"]), dict(st["replaced"])))
+    ctx.extra["rule4_margins_seen"] = sorted(m for m in st["m4"] if -2 <= m <= 2)
+    ctx.extra["accepted_replacements_by_evicted_count"] = {str(k): v for k, v in sorted(st["replaced"].items())}
+    ctx.assumptions += ["bounded scenario: 17-transaction universe on 3 mature base coins, clusters of at most 3 transactions (the brute-force optimum equals the code's)",
+                        "min relay and incremental relay feerates 100 sat/kvB (and incremental 0 in the equal-diagram scenario), as passed to the node",
+                        "Rule 5 (100 clusters) is not reachable in the bounded universes"]
+    return ctx.finish(level="model_checking", exhaustive=True,
+                      rule="path cover of every transition of the bounded Mempool graph (submit / prioritise from every reachable pool); non-trivial = "
+                           "distinct paths containing at least one submission that conflicts with the pool")
